@@ -424,6 +424,120 @@ func c11Run(c *engine.Ctx) {
 			}
 		}
 	}
+	// two walked positions mention the SAME identity - one as a bare IRI (or a sparse object), the other as an embedded carrier with
+	// private recipients; and hosts whose own bto/bcc are empty but have capacity (what a de-duplication in place leaves behind)
+	for _, h := range hosts {
+		h := h
+		walked := c11WalkedTerms(h.Name)
+		for i, t1 := range walked {
+			for j, t2 := range walked {
+				if i == j {
+					continue
+				}
+				f1, f2 := h.FieldByTerm(t1), h.FieldByTerm(t2)
+				if f1 == nil || f2 == nil {
+					continue
+				}
+				for _, refForm := range []string{"iri", "sparse-object", "same-pointer"} {
+					f1, f2, refForm := *f1, *f2, refForm
+					class := "C11|clean|" + h.Name
+					c.Do(class, func() string {
+						return fmt.Sprintf("*%s with %s = reference (%s) to the identity whose carrier (with bto/bcc) is embedded in %s ; Clean()", h.Name, f1.Term, refForm, f2.Term)
+					}, func(t *engine.T) {
+						g := &universe.Gen{}
+						p := universe.Embedded(h, g, true, true)
+						c11Private(g, p)
+						carrier := universe.Embedded(universe.ByName("Actor"), g, true, true)
+						c11Private(g, carrier)
+						id := carrier.Elem().FieldByName("ID").Interface().(ap.IRI)
+						var ref ap.Item
+						switch refForm {
+						case "iri":
+							ref = id
+						case "sparse-object":
+							ref = &ap.Object{ID: id}
+						default:
+							ref = carrier.Interface().(ap.Item)
+						}
+						set := func(f universe.Field, it ap.Item) {
+							fv := p.Elem().Field(f.Index)
+							if f.Kind == universe.KItems {
+								fv.Set(reflect.ValueOf(ap.ItemCollection{it}))
+							} else {
+								fv.Set(reflect.ValueOf(it).Convert(fv.Type()))
+							}
+						}
+						set(f1, ref)
+						set(f2, carrier.Interface().(ap.Item))
+						v := p.Interface()
+						before := canon.Of(v, canon.Raw)
+						want, _ := c11Expect(before)
+						t.State(engine.Hash64("c11same", before.String()), true)
+						v.(ap.HasRecipients).Clean()
+						t.Ops(1)
+						for _, d := range canon.Diff(want, canon.Of(v, canon.Raw)) {
+							term := canon.LastTerm(d.Path)
+							what := "other-property-" + d.Symptom
+							if (term == "bto" || term == "bcc") && d.Symptom == "invented" {
+								what = "private-recipients-left"
+							}
+							t.Fail(fmt.Sprintf("C11|clean|%s|%s|same-identity-elsewhere|%s", h.Name, term, what), "%s at %s", d, d.Path)
+						}
+					})
+				}
+			}
+		}
+		for _, term := range walked {
+			f := h.FieldByTerm(term)
+			if f == nil {
+				continue
+			}
+			for _, emptyForm := range []string{"both-empty-with-capacity", "bto-nil-bcc-empty-with-capacity", "emptied-by-reslicing"} {
+				f, emptyForm := *f, emptyForm
+				class := "C11|clean|" + h.Name
+				c.Do(class, func() string {
+					return fmt.Sprintf("*%s whose own bto/bcc are %s, with a carrier embedded in %s ; Clean()", h.Name, emptyForm, f.Term)
+				}, func(t *engine.T) {
+					g := &universe.Gen{}
+					p := universe.Embedded(h, g, true, true)
+					e := p.Elem()
+					switch emptyForm {
+					case "both-empty-with-capacity":
+						e.FieldByName("Bto").Set(reflect.ValueOf(make(ap.ItemCollection, 0, 4)))
+						e.FieldByName("BCC").Set(reflect.ValueOf(make(ap.ItemCollection, 0, 4)))
+					case "bto-nil-bcc-empty-with-capacity":
+						e.FieldByName("BCC").Set(reflect.ValueOf(make(ap.ItemCollection, 0, 2)))
+					default:
+						full := ap.ItemCollection{g.IRI(), g.IRI()}
+						e.FieldByName("Bto").Set(reflect.ValueOf(full[:0]))
+						e.FieldByName("BCC").Set(reflect.ValueOf(full[:0:1]))
+					}
+					carrier := universe.Embedded(universe.ByName("Object"), g, true, true)
+					c11Private(g, carrier)
+					fv := e.Field(f.Index)
+					if f.Kind == universe.KItems {
+						fv.Set(reflect.ValueOf(ap.ItemCollection{carrier.Interface().(ap.Item)}))
+					} else {
+						fv.Set(carrier)
+					}
+					v := p.Interface()
+					before := canon.Of(v, canon.Raw)
+					want, _ := c11Expect(before)
+					t.State(engine.Hash64("c11cap", before.String()), true)
+					v.(ap.HasRecipients).Clean()
+					t.Ops(1)
+					for _, d := range canon.Diff(want, canon.Of(v, canon.Raw)) {
+						term := canon.LastTerm(d.Path)
+						what := "other-property-" + d.Symptom
+						if (term == "bto" || term == "bcc") && d.Symptom == "invented" {
+							what = "private-recipients-left"
+						}
+						t.Fail(fmt.Sprintf("C11|clean|%s|%s|empty-with-capacity|%s", h.Name, term, what), "%s at %s", d, d.Path)
+					}
+				})
+			}
+		}
+	}
 	// every list property of the host is a window into ONE backing array, the private lists first: truncating or wiping bto/bcc
 	// must not reach into the neighbouring windows
 	for _, h := range hosts {
